@@ -1,6 +1,8 @@
 //! Recording collector, scriptable self-consistent filter, and the stepped worker threads
 //! used by the dispatcher-level checks (C01-C04).
 
+pub mod sched;
+
 use serde::{Deserialize, Serialize};
 use std::cell::Cell;
 use std::sync::atomic::{AtomicBool, AtomicU64, Ordering};
